@@ -53,8 +53,9 @@ def check_bound(col, case, sub='bound'):
             'bound is %d' % (name, held, info, where, n, bound_for(name)),
             dict(case, inspector=name))
 
+    imgdrive.tracing_for((core.h64(data), repr(sched)))
     for name in imggen.FORMATS:
-        insp = F.ALL_FORMATS[name]()
+        insp = imgdrive.new_inspector(name)
         pos = 0
         for i, chunk in enumerate(chunking.chunks(data, sched)):
             try:
@@ -267,6 +268,13 @@ def sweep(col, which):
                           'kind': 'hostile'})
         cases.append({'base': ['vhdx', dict(tail=1200 * KI)],
                       'kind': 'hostile'})
+        # every metadata item the format defines (file parameters, sector
+        # sizes, page 83 data, parent locator) announcing a huge length
+        for il in (64 * KI + 1, 600 * KI, MI, 2 ** 32 - 1):
+            for before in (1, 5):
+                cases.append({'base': ['vhdx', dict(
+                    meta_before=before, meta_after=5 - before,
+                    pad_item_length=il, tail=1300 * KI)], 'kind': 'hostile'})
         for ml in (0, 32, 64 * KI, 128 * KI, MI):
             for d in (-8, 0, 1, 8):
                 io = max(64 * KI, ml + d)
@@ -299,6 +307,17 @@ def sweep(col, which):
                                           [o2, imggen.field_bytes(
                                               v2, w2, e2).hex()]],
                                       'extend': [3, 1700 * KI]})
+    elif which.startswith('qcow2sem'):
+        # qcow2 fields that belong together by the format document: a name /
+        # table located by (offset, size) inside clusters of 2^cluster_bits
+        all_bits = (0, 9, 16, 20, 21, 22, 63, 2 ** 32 - 1)
+        for bits in (all_bits[int(which.split(':')[1])],):
+            for off in (0, 104, 4096, 65536 + 8, 2 ** 20, 2 ** 63):
+                for size in (0, 1, 1023, 1024, 600 * KI, MI, 2 * MI - 200,
+                             2 ** 31, 2 ** 32 - 1):
+                    cases.append({'base': ['qcow2', dict(
+                        cluster_bits=bits, bf_offset=off, bf_size=size)],
+                        'kind': 'hostile', 'extend': [3, 2200 * KI]})
     elif which == 'repeat':
         # a structure repeated far more often than any real image has it
         for n in (1, 16, 300, 700):
@@ -329,7 +348,7 @@ def sweep(col, which):
         from vcheck import imgstrat
         n = len(imgstrat.realize(content)[0])
         scheds = (['fixed', 65536], ['sizes', [n]], ['fixed', 4096])
-        if which.startswith('fields:'):
+        if which.startswith(('fields:', 'qcow2sem')):
             scheds = (['fixed', 512 * KI], ['sizes', [n]])
         for sched in scheds:
             check_bound(col, {'content': content, 'schedule': sched,
@@ -339,8 +358,9 @@ def sweep(col, which):
 
 
 def tasks(tier, seed):
-    out = [Task('sweep', sweep, which=w) for w in ('vmdk', 'vhdx', 'other',
-                                                    'repeat')]
+    out = [Task('sweep', sweep, which=w) for w in
+           ('vmdk', 'vhdx', 'other', 'repeat') +
+           tuple('qcow2sem:%d' % i for i in range(8))]
     from vcheck import imggen
     for fmt in imggen.FORMATS:
         nf = len(imggen.FIELDS.get(fmt) or ())
